@@ -108,6 +108,44 @@ struct Prepared {
     seqs: Vec<Vec<usize>>,
 }
 
+/// Large family: `n` A records at a 255-octet owner (`records = true`) or one opaque TYPE65280
+/// record with `n` RDATA octets.
+fn large_case(tuple: &SigParams, records: bool, n: usize) -> Case {
+    let mut p = tuple.clone();
+    if records {
+        let long_owner: Labels = vec![vec![b'o'; 63], vec![b'P'; 63], vec![b'q'; 63], vec![b'r'; 61]];
+        p.type_covered = 1;
+        p.labels = 4;
+        Case {
+            tname: "A".into(),
+            owner: long_owner.clone(),
+            rec_owner: long_owner,
+            class: 1,
+            rdatas: (0..n).rev().map(|k| vec![Field::Bytes(vec![10, (k >> 16) as u8, (k >> 8) as u8, k as u8])]).collect(),
+            ttls: vec![300; n],
+            p,
+            foreign: vec![],
+            from_message: false,
+            observe_only: false,
+        }
+    } else {
+        p.type_covered = 65280;
+        p.labels = 2;
+        Case {
+            tname: "TYPE65280".into(),
+            owner: nm("a.z"),
+            rec_owner: nm("a.z"),
+            class: 1,
+            rdatas: vec![vec![Field::Bytes((0..n).map(|k| (k % 251) as u8).collect())]],
+            ttls: vec![300],
+            p,
+            foreign: vec![],
+            from_message: false,
+            observe_only: false,
+        }
+    }
+}
+
 fn main() {
     // a stack overflow / abort in the code under test must become a verdict, not a dead check
     vcore::supervise("C05");
@@ -160,7 +198,13 @@ fn main() {
             });
             ctx.finish(false);
         }
-        let c = Case::from_json(&case);
+        let c = if case["family"].as_str() == Some("large") {
+            let records = case["type"].as_str() == Some("A");
+            let n = if records { case["records"].as_u64().unwrap_or(1) } else { case["first_rdata_len"].as_u64().unwrap_or(1) } as usize;
+            large_case(&sig_tuples()[0], records, n)
+        } else {
+            Case::from_json(&case)
+        };
         let hr: Result<Vec<RData>, String> = c.rdatas.iter().map(|r| tbs::hrdata(c.p.type_covered, r)).collect();
         let hr = hr.unwrap_or_else(|e| vcore::machinery_exit(&format!("replay: RDATA does not decode: {e}")));
         ctx.with_local(|l| {
@@ -201,10 +245,10 @@ fn main() {
          Audit round: message-input family (records decoded by ONE decoder from a message with pointer owners and, for RFC 1035 types, compressed RDATA names: \
          shapes of <= 2 (thorough 3) records x 4 owners x TTL pattern x 2 tuples); field sweeps (algorithm 0..255, Labels 0..255, original TTL / expiration / \
          inception / key tag at integer-width boundaries on A and NS sets; 11 class values x every type); large family (2..1000 A records at a 255-octet owner, one \
-         opaque RDATA of up to 65,535 octets: equality judged while the signed data fits 65,535 octets, rejections above are observations); signer configuration \
+         opaque RDATA of up to 65,535 octets: equality with the reference judged below AND above 65,535 octets — the old message-encoder limit, fixed in 263b51f; quick: 243/244 records and 65,499/65,500 octets); signer configuration \
          family (5 keys x 4 inceptions x 5 durations x 4 signer names x 4 (RRset TTL, record TTL) x 3 owners; RSA keys on a deterministic 1/7 diagonal in quick): \
          RRSIG fields, the RRSIG RDATA on the wire parsed by the reference (uncompressed signer, case kept) and verified with ring from those octets; SIG(24); \
-         thorough: the obsolete RFC 4034-list types without typed RDATA (MD MF MB MG MR MINFO RT PX NXT A6) as observations. \
+         the obsolete RFC 4034-list types without typed RDATA: MB and MINFO in both tiers, MD MF MG MR RT PX NXT A6 in thorough (open findings). \
          Non-trivial = distinct cases with >= 2 records whose input order is not the canonical duplicate-free \
          order, or with embedded names, and every deviating case.",
     );
@@ -467,47 +511,11 @@ fn main() {
     // signed data near and above 65,535 octets: many A records at a 255-octet owner name, one
     // opaque record with RDATA up to 65,535 octets
     {
-        let a = prepared.iter().find(|p| p.alpha.name == "A").expect("A alphabet");
-        let opaque = prepared.iter().find(|p| p.alpha.code == 65280).expect("opaque alphabet");
-        let long_owner: Labels = vec![vec![b'o'; 63], vec![b'P'; 63], vec![b'q'; 63], vec![b'r'; 61]];
         let counts: Vec<usize> = if thorough { vec![2, 100, 200, 242, 243, 244, 245, 300, 1000] } else { vec![2, 243, 244, 300] };
         let lens: Vec<usize> = if thorough { vec![1000, 60000, 65498, 65499, 65500, 65501, 65534, 65535] } else { vec![60000, 65499, 65500, 65535] };
         ctx.par_run((counts.len() + lens.len()) as u64, 1, |i, l| {
             let i = i as usize;
-            let mut p = tuples[0].clone();
-            let c = if i < counts.len() {
-                p.type_covered = a.alpha.code;
-                p.labels = 4;
-                let n = counts[i];
-                Case {
-                    tname: "A".into(),
-                    owner: long_owner.clone(),
-                    rec_owner: long_owner.clone(),
-                    class: 1,
-                    rdatas: (0..n).rev().map(|k| vec![Field::Bytes(vec![10, (k >> 16) as u8, (k >> 8) as u8, k as u8])]).collect(),
-                    ttls: vec![300; n],
-                    p,
-                    foreign: vec![],
-                    from_message: false,
-                observe_only: false,
-                }
-            } else {
-                p.type_covered = opaque.alpha.code;
-                p.labels = 2;
-                let n = lens[i - counts.len()];
-                Case {
-                    tname: opaque.alpha.name.to_string(),
-                    owner: nm("a.z"),
-                    rec_owner: nm("a.z"),
-                    class: 1,
-                    rdatas: vec![vec![Field::Bytes((0..n).map(|k| (k % 251) as u8).collect())]],
-                    ttls: vec![300],
-                    p,
-                    foreign: vec![],
-                    from_message: false,
-                observe_only: false,
-                }
-            };
+            let c = if i < counts.len() { large_case(&tuples[0], true, counts[i]) } else { large_case(&tuples[0], false, lens[i - counts.len()]) };
             let hr: Result<Vec<RData>, String> = c.rdatas.iter().map(|r| tbs::hrdata(c.p.type_covered, r)).collect();
             match hr {
                 Ok(hr) => {
@@ -681,6 +689,7 @@ fn main() {
         "tbs:equal:records-decoded-from-compressed-message".into(),
         "sweep:class-x-type".into(),
         "tbs:equal:signed-data-above-60000-octets".into(),
+        "tbs:equal:signed-data-above-65535-octets".into(),
         "keytag:equal".into(),
         "keytag:equal:odd-length-rdata".into(),
     ];
